@@ -146,45 +146,43 @@ func checkC13(c *km.Ctx) {
 			}
 		}
 		r.Add("R-C13-1", km.FuncName(vf), "possibly-true return", posOf(c, rc.Ret), "parse ok (of the submitted string) ∧ scheme == https ∧ empty query ∧ no '..'", sprintf("missing=%v parses-param=%v", missing, parsedParam), len(missing) == 0 && parsedParam)
-		// verdict sources
-		domainsEmpty := rc.State.All(func(k km.Conj) bool {
-			for _, f := range k.List() {
-				if cl, ok := f.X.(*ssa.Call); ok {
-					if b, ok := cl.Common().Value.(*ssa.Builtin); ok && b.Name() == "len" && mentionsField(cl.Common().Args[0], "AllowedRedirectDomains") {
-						if i, isC := km.ConstInt(f.Y); isC && ((f.Op == token.LSS && i == 1) || (f.Op == token.LEQ && i == 0) || (f.Op == token.EQL && i == 0)) {
-							return true
-						}
+		// verdict: on every path on which the returned value can be true, the domain side and the pattern side
+		// are each satisfied the way the configuration demands
+		nTruePaths := 0
+		var bad []string
+		for _, k := range rc.State {
+			kk, mayBeTrue := s.TrueFacts(k, v)
+			if !mayBeTrue {
+				continue
+			}
+			nTruePaths++
+			domEmpty, domMatch, patEmpty, patMatch := false, false, false, false
+			for _, f := range kk.List() {
+				if lenZeroFact(f, "AllowedRedirectDomains") {
+					domEmpty = true
+				}
+				if lenZeroFact(f, "AllowedRedirectURLRE") {
+					patEmpty = true
+				}
+				if domainMatchFact(s, hp, f) {
+					domMatch = true
+				}
+				if f.Op == token.ILLEGAL && f.Pol {
+					if cl, idx := callRes(f.X); cl != nil && idx == 0 && km.CalleeFull(cl.Common()) == "regexp.MatchString" && isElemOfField(cl.Common().Args[0], "AllowedRedirectURLRE") && km.Unwrap(cl.Common().Args[1]) == ssa.Value(vf.Params[1]) {
+						patMatch = true
 					}
 				}
 			}
-			return false
-		})
-		srcs, _ := flagTrueSources(c, v)
-		okAll := len(srcs) > 0
-		var descs []string
-		for _, src := range srcs {
-			kind := classifyVerdictSource(c, vf, hp, src)
-			descs = append(descs, kind)
-			switch kind {
-			case "pattern-match":
-				// alone only acceptable when no domains are configured; otherwise it must be conjoined with a domain match,
-				// which shows up as the conjunction phi below
-			case "domain-match", "no-patterns-configured":
-			default:
-				okAll = false
+			switch {
+			case domEmpty && patEmpty:
+				bad = appendUniq(bad, "true with neither domains nor patterns configured")
+			case !(domEmpty || domMatch):
+				bad = appendUniq(bad, "true without a configured-domain match although domains may be configured")
+			case !(patEmpty || patMatch):
+				bad = appendUniq(bad, "true without a configured-pattern match although patterns may be configured")
 			}
 		}
-		// shape: with domains configured the result must be a conjunction matchedDomain && matchedRE
-		if !domainsEmpty {
-			okAll = okAll && isConjunctionOfFlags(c, vf, hp, v)
-		} else {
-			for _, d := range descs {
-				if d != "pattern-match" {
-					okAll = false
-				}
-			}
-		}
-		r.Add("R-C13-2", km.FuncName(vf), "verdict sources", posOf(c, rc.Ret), "true only from configured pattern / configured domain matches combined as the configuration demands", sprintf("domains-empty=%v sources=%v", domainsEmpty, descs), okAll)
+		r.Add("R-C13-2", km.FuncName(vf), "verdict sources", posOf(c, rc.Ret), "true only when (no domains configured ∨ host in a configured domain) ∧ (no patterns configured ∨ a configured pattern matches), and something is configured", sprintf("paths that can yield true=%d %v", nTruePaths, bad), len(bad) == 0 && nTruePaths > 0)
 	}
 	if nRet < 2 {
 		r.AnchorLost("R-C13-1", sprintf("possibly-true returns of CanRedirectToURL (found %d)", nRet))
@@ -253,22 +251,44 @@ func checkC13(c *km.Ctx) {
 			continue
 		}
 		n := 0
-		for _, ci := range km.CallsIn(fn) {
-			if km.StaticCallee(ci.Common()) != hp {
-				continue
-			}
-			n++
-			a := ci.Common().Args
-			hostOK := false
-			if hc, ok := km.Unwrap(a[0]).(*ssa.Call); ok && km.CalleeFull(hc.Common()) == "(*net/url.URL).Hostname" {
-				if pc, idx := callRes(km.Unwrap(hc.Common().Args[0])); pc != nil && idx == 0 && km.CalleeFull(pc.Common()) == "net/url.Parse" && km.Unwrap(pc.Common().Args[0]) == ssa.Value(fn.Params[1]) {
-					hostOK = true
+		fns := append([]*ssa.Function{fn}, fn.AnonFuncs...)
+		for _, f2 := range fns {
+			for _, ci := range km.CallsIn(f2) {
+				if km.StaticCallee(ci.Common()) != hp {
+					continue
 				}
+				n++
+				a := ci.Common().Args
+				hostOK := hostOfParsedParam(a[0], 0)
+				domOK := isElemOfField(a[1], "AllowedRedirectDomains")
+				// facts are judged where the decision is taken: at the call, or - for a matcher closure - where the
+				// closure is handed to slices.ContainsFunc over the configured domains
+				var sites []ssa.Instruction
+				if f2 == fn {
+					sites = append(sites, ci)
+				} else if len(f2.Params) == 1 && km.Unwrap(a[1]) == ssa.Value(f2.Params[0]) {
+					for _, c2 := range km.CallsIn(fn) {
+						name := km.CalleeFull(c2.Common())
+						if i := strings.Index(name, "["); i > 0 {
+							name = name[:i]
+						}
+						if name == "slices.ContainsFunc" && len(c2.Common().Args) == 2 && mentionsField(c2.Common().Args[0], "AllowedRedirectDomains") {
+							if mc, ok := km.Unwrap(c2.Common().Args[1]).(*ssa.MakeClosure); ok && mc.Fn == ssa.Value(f2) {
+								domOK = true
+								sites = append(sites, c2)
+							}
+						}
+					}
+				}
+				schemeOK := len(sites) > 0
+				for _, site := range sites {
+					st := c.F.At(site)
+					if !st.All(func(k km.Conj) bool { return s.Holds(k, https) && s.Holds(k, parseOK) }) {
+						schemeOK = false
+					}
+				}
+				r.Add("R-C13-4", km.FuncName(fn), "host decided by the shared predicate", posOf(c, ci), "hostnameInDomain(parse(param).Hostname(), configured domain) after parse ok ∧ scheme == https", sprintf("host=%v domain=%v https=%v", hostOK, domOK, schemeOK), hostOK && domOK && schemeOK)
 			}
-			domOK := isElemOfField(a[1], "AllowedRedirectDomains")
-			st := c.F.At(ci)
-			schemeOK := st.All(func(k km.Conj) bool { return s.Holds(k, https) && s.Holds(k, parseOK) })
-			r.Add("R-C13-4", km.FuncName(fn), "host decided by the shared predicate", posOf(c, ci), "hostnameInDomain(parse(param).Hostname(), configured domain) after parse ok ∧ scheme == https", sprintf("host=%v domain=%v https=%v", hostOK, domOK, schemeOK), hostOK && domOK && schemeOK)
 		}
 		if n == 0 {
 			r.Add("R-C13-4", km.FuncName(fn), "host decided by the shared predicate", c.P.Pos(fn.Pos()), "the sibling uses hostnameInDomain", "no call found", false)
@@ -358,19 +378,55 @@ func isDotSuffixCall(v ssa.Value, host, dom ssa.Value, k km.Conj) bool {
 	if !ok || km.CalleeFull(cl.Common()) != "strings.HasSuffix" || km.Unwrap(cl.Common().Args[0]) != host {
 		return false
 	}
-	suf := km.Unwrap(cl.Common().Args[1])
+	return startsAtDot(cl.Common().Args[1], dom, k, 0)
+}
+
+// startsAtDot: the suffix value is "."+domain, or domain itself on a path where domain starts with a dot; a
+// merged value is judged by the operand this path's provenance fact names.
+func startsAtDot(suf ssa.Value, dom ssa.Value, k km.Conj, depth int) bool {
+	suf = km.Unwrap(suf)
+	if depth > 3 {
+		return false
+	}
 	if b, ok := suf.(*ssa.BinOp); ok && b.Op == token.ADD {
-		if cs, isC := km.ConstString(b.X); isC && cs == "." && km.Unwrap(b.Y) == dom {
-			return true
+		if cs, isC := km.ConstString(b.X); isC && cs == "." {
+			y := km.Unwrap(b.Y)
+			if y == dom {
+				return true
+			}
+			// "." + x where this path says x is the domain
+			for _, f := range k.List() {
+				if f.Op == token.EQL && f.X == y && km.Unwrap(f.Y) == dom {
+					return true
+				}
+			}
 		}
 	}
 	if suf == dom {
 		for _, f := range k.List() {
 			if f.Op == token.ILLEGAL && f.Pol {
-				if pc, ok := f.X.(*ssa.Call); ok && km.CalleeFull(pc.Common()) == "strings.HasPrefix" && km.Unwrap(pc.Common().Args[0]) == dom {
-					if cs, isC := km.ConstString(pc.Common().Args[1]); isC && cs == "." {
+				if pc, ok := f.X.(*ssa.Call); ok && km.CalleeFull(pc.Common()) == "strings.HasPrefix" {
+					arg := km.Unwrap(pc.Common().Args[0])
+					same := arg == dom
+					if !same {
+						for _, g := range k.List() {
+							if g.Op == token.EQL && g.X == arg && km.Unwrap(g.Y) == dom {
+								same = true
+							}
+						}
+					}
+					if cs, isC := km.ConstString(pc.Common().Args[1]); same && isC && cs == "." {
 						return true
 					}
+				}
+			}
+		}
+	}
+	if phi, ok := suf.(*ssa.Phi); ok {
+		for _, f := range k.List() {
+			if f.Op == token.EQL && f.X == ssa.Value(phi) && f.Y != nil {
+				if startsAtDot(f.Y, dom, k, depth+1) {
+					return true
 				}
 			}
 		}
@@ -440,4 +496,127 @@ func isConjunctionOfFlags(c *km.Ctx, vf, hp *ssa.Function, v ssa.Value) bool {
 		}
 	}
 	return kinds["domain-match"] && (kinds["pattern-match"] || kinds["no-patterns-configured"])
+}
+
+// hostOfParsedParam: v is parse(<param>).Hostname(), directly or through a local / captured variable
+func hostOfParsedParam(v ssa.Value, depth int) bool {
+	v = km.Unwrap(v)
+	if depth > 3 {
+		return false
+	}
+	if hc, ok := v.(*ssa.Call); ok && km.CalleeFull(hc.Common()) == "(*net/url.URL).Hostname" {
+		if pc, idx := callRes(km.Unwrap(hc.Common().Args[0])); pc != nil && idx == 0 && km.CalleeFull(pc.Common()) == "net/url.Parse" {
+			_, isParam := km.Unwrap(pc.Common().Args[0]).(*ssa.Parameter)
+			return isParam
+		}
+		return false
+	}
+	if fv, ok := v.(*ssa.FreeVar); ok {
+		if b := freeVarBinding(fv); b != nil {
+			return hostOfParsedParam(b, depth+1)
+		}
+	}
+	if u, ok := v.(*ssa.UnOp); ok && u.Op == token.MUL {
+		// a captured variable cell: its single store
+		var stored ssa.Value
+		n := 0
+		cell := km.Unwrap(u.X)
+		if fv, ok := cell.(*ssa.FreeVar); ok {
+			if b := freeVarBinding(fv); b != nil {
+				cell = b
+			}
+		}
+		if a, ok := cell.(*ssa.Alloc); ok {
+			for _, ref := range *a.Referrers() {
+				if st, ok := ref.(*ssa.Store); ok && st.Addr == ssa.Value(a) {
+					stored = st.Val
+					n++
+				}
+			}
+		}
+		if n == 1 {
+			return hostOfParsedParam(stored, depth+1)
+		}
+	}
+	return false
+}
+
+// freeVarBinding: the value bound to a closure's free variable where the closure is made
+func freeVarBinding(fv *ssa.FreeVar) ssa.Value {
+	fn := fv.Parent()
+	idx := -1
+	for i, v := range fn.FreeVars {
+		if v == fv {
+			idx = i
+		}
+	}
+	if idx < 0 || fn.Parent() == nil {
+		return nil
+	}
+	var out ssa.Value
+	km.Instrs(fn.Parent(), func(in ssa.Instruction) {
+		if mc, ok := in.(*ssa.MakeClosure); ok && mc.Fn == ssa.Value(fn) && idx < len(mc.Bindings) {
+			out = mc.Bindings[idx]
+		}
+	})
+	return out
+}
+
+// domainMatcherClosure: v is a closure func(domain string) bool whose every return is
+// hostnameInDomain(<host of the parsed parameter>, domain)
+func domainMatcherClosure(s *km.Sem, hp *ssa.Function, v ssa.Value) bool {
+	mc, ok := km.Unwrap(v).(*ssa.MakeClosure)
+	if !ok {
+		return false
+	}
+	fn, ok := mc.Fn.(*ssa.Function)
+	if !ok || len(fn.Params) != 1 {
+		return false
+	}
+	n := 0
+	for _, rc := range s.RetCases(fn) {
+		cl, idx := callRes(km.Unwrap(rc.Results[0]))
+		if cl == nil || idx != 0 || km.StaticCallee(cl.Common()) != hp {
+			return false
+		}
+		a := cl.Common().Args
+		if !hostOfParsedParam(a[0], 0) || km.Unwrap(a[1]) != ssa.Value(fn.Params[0]) {
+			return false
+		}
+		n++
+	}
+	return n > 0
+}
+
+// domainMatchFact: the fact says the host of the parsed parameter is inside a configured domain
+func domainMatchFact(s *km.Sem, hp *ssa.Function, f km.Fact) bool {
+	if f.Op != token.ILLEGAL || !f.Pol {
+		return false
+	}
+	cl, idx := callRes(f.X)
+	if cl == nil || idx != 0 {
+		return false
+	}
+	if km.StaticCallee(cl.Common()) == hp {
+		return hostOfParsedParam(cl.Common().Args[0], 0) && isElemOfField(cl.Common().Args[1], "AllowedRedirectDomains")
+	}
+	name := km.CalleeFull(cl.Common())
+	if i := strings.Index(name, "["); i > 0 {
+		name = name[:i]
+	}
+	if name == "slices.ContainsFunc" && len(cl.Common().Args) == 2 {
+		return mentionsField(cl.Common().Args[0], "AllowedRedirectDomains") && domainMatcherClosure(s, hp, cl.Common().Args[1])
+	}
+	return false
+}
+
+func lenZeroFact(f km.Fact, field string) bool {
+	if cl, ok := f.X.(*ssa.Call); ok {
+		if b, ok := cl.Common().Value.(*ssa.Builtin); ok && b.Name() == "len" && mentionsField(cl.Common().Args[0], field) {
+			if i, isC := km.ConstInt(f.Y); isC && ((f.Op == token.LSS && i == 1) || (f.Op == token.LEQ && i == 0) || (f.Op == token.EQL && i == 0)) {
+				return true
+			}
+		}
+	}
+	return false
 }
